@@ -315,7 +315,9 @@ class GrammarEval:
             t = st.test
             if norm(t) in ('TYPE_CHECKING', 'typing.TYPE_CHECKING'):
                 return
-            flag = self.ev(t, env, mod, self_cfg) if self_cfg is not None else None
+            flag = self.ev(t, env, mod, self_cfg) if (self_cfg is not None or env.get('$in_function')) else None
+            if env.get('$in_function') and not isinstance(flag, bool) and (flag is None or isinstance(flag, (str, int, tuple, list))) and not isinstance(flag, Opaque):
+                flag = bool(flag)         # truth value of a concrete argument (a name given or not, an empty tuple)
             if isinstance(flag, bool):
                 for s in (st.body if flag else st.orelse):
                     self.exec_stmt(s, env, mod, self_cfg)
@@ -479,6 +481,39 @@ class GrammarEval:
             return Opaque('dict')
         if isinstance(e, ast.JoinedStr):
             return Opaque('fstring')
+        if isinstance(e, ast.Compare) and len(e.ops) == 1:
+            # comparisons between concrete values (a parameter that is None or a string, a number): decided; anything else stays unknown
+            a = self.ev(e.left, env, mod, cfg)
+            b = self.ev(e.comparators[0], env, mod, cfg)
+            concrete = (type(None), str, int, bool, float, tuple)
+            if isinstance(a, concrete) and isinstance(b, concrete) and not isinstance(a, Opaque) and not isinstance(b, Opaque):
+                op = e.ops[0]
+                try:
+                    if isinstance(op, ast.Is):
+                        return a is b if (a is None or b is None or isinstance(a, bool) or isinstance(b, bool)) else Opaque('is')
+                    if isinstance(op, ast.IsNot):
+                        return a is not b if (a is None or b is None or isinstance(a, bool) or isinstance(b, bool)) else Opaque('is not')
+                    if isinstance(op, ast.Eq):
+                        return a == b
+                    if isinstance(op, ast.NotEq):
+                        return a != b
+                    if isinstance(op, ast.In) and isinstance(b, (tuple, str)):
+                        return a in b
+                    if isinstance(op, ast.NotIn) and isinstance(b, (tuple, str)):
+                        return a not in b
+                except TypeError:
+                    pass
+            if (a is None and isinstance(b, G)) or (b is None and isinstance(a, G)):
+                if isinstance(e.ops[0], ast.Is):
+                    return False
+                if isinstance(e.ops[0], ast.IsNot):
+                    return True
+            return Opaque(f'comparison {norm(e)[:40]}')
+        if isinstance(e, ast.UnaryOp) and isinstance(e.op, ast.Not):
+            v = self.ev(e.operand, env, mod, cfg)
+            if isinstance(v, (bool, type(None), str, int, tuple, list)) and not isinstance(v, Opaque):
+                return not v
+            return Opaque('not')
         raise Unrecognised(f'expression `{norm(e)[:80]}`', e)
 
     def binop(self, l: Any, op: ast.operator, r: Any, node: ast.AST, m: str) -> Any:
@@ -1116,6 +1151,7 @@ class GrammarModel:
                 except Unrecognised:
                     pass
         self.parser_env = env
+        self.ev.envs.setdefault(self.PARSER_MOD, env)       # helper functions of the parser module see its module-level names
         # every definition module, also those the parser does not import
         for name in sorted(idx.modules):
             if name.startswith(DEFS + '.'):
